@@ -468,6 +468,12 @@ func idxBattery(r *rand.Rand, n int) []idxQuery {
 		for _, f := range []string{"evenlen", "hasa", "none"} {
 			qs = append(qs, idxQuery{Index: idx, Prefix: []string{"", "a"}[r.Intn(2)], Filter: f, Limit: -1, Reverse: r.Intn(2) == 0})
 		}
+		// filter and offset together: the offset counts what passes the filter
+		for _, f := range []string{"evenlen", "hasa"} {
+			for off := 1; off <= 3; off++ {
+				qs = append(qs, idxQuery{Index: idx, Prefix: []string{"", "a"}[off%2], Filter: f, Offset: off, Limit: -1, Reverse: off%2 == 0})
+			}
+		}
 		for off := 0; off <= n+1; off++ {
 			qs = append(qs, idxQuery{Index: idx, Prefix: "", Offset: off, Limit: -1, Reverse: off%2 == 1})
 		}
@@ -750,6 +756,18 @@ func c13Flush(c *core.Ctx, env *idxEnv, r *rand.Rand, h int) {
 	var hist []idxMut
 	n := 0
 	var tasks int64
+	if h%2 == 0 {
+		// an index update that fails (the index key is longer than the database accepts: the
+		// value is stored, its index entry is refused) is a finished update like any other;
+		// Flush keeps waiting for the updates that follow it. The value stays out of the model.
+		wt := env.st.Write("huge")
+		if err := wt.Create(mkValue2(env.typed, "huge.u", strings.Repeat("y", 70000), "")); err == nil {
+			atomic.AddInt64(&idxTasksEnqueued, 1)
+			c.Obs("index_updates_with_oversized_key", 1)
+		}
+		wt.Close()
+		env.qs.Flush()
+	}
 	for round := 0; round < 6; round++ {
 		mode := round % 3
 		var gate *sched.Gate
